@@ -14,6 +14,7 @@ import (
 	"go/types"
 	"regexp"
 	"sort"
+	"strconv"
 	"strings"
 
 	"golang.org/x/tools/go/ssa"
@@ -676,4 +677,91 @@ func (r *Run) checkEncodedEverywhere(rule string, writer *ssa.Function, sep stri
 			"the value written after the separator went through the encoder",
 			"the writer encodes the component after `"+sep+"` at some sites but not at this one, while the reader always decodes it: a value written here that contains an escape character is rejected or changed when it is read back")
 	}
+}
+
+// ruleUploadBytes (R13q.bytes): between the client's multipart part and the part written for the
+// owning service a file is handed on as it was opened: code reachable from the upload entry
+// points calls nothing that bounds or cuts a byte stream (io.LimitReader, io.CopyN,
+// io.NewSectionReader, http.MaxBytesReader, a literal io.LimitedReader / io.SectionReader). A
+// bound that is generous for every test file still cuts the first file that is larger.
+var byteBounders = map[string]bool{
+	"io.LimitReader":           true,
+	"io.CopyN":                 true,
+	"io.NewSectionReader":      true,
+	"io.NewOffsetWriter":       true,
+	"net/http.MaxBytesReader":  true,
+	"(*bytes.Buffer).Truncate": true,
+	"(*os.File).Truncate":      true,
+}
+
+func ruleUploadBytes(r *Run) {
+	const rule = "R13q.bytes"
+	var roots []*ssa.Function
+	for _, name := range scUpload.roots {
+		if f := r.Anchor(rule, name); f != nil {
+			roots = append(roots, f)
+		}
+	}
+	if len(roots) == 0 {
+		return
+	}
+	n := 0
+	for fn := range r.P.CG.ReachableAll(roots) {
+		if !inModule(fn) {
+			continue
+		}
+		n++
+		for _, ins := range allInstrs(fn) {
+			switch x := ins.(type) {
+			case ssa.CallInstruction:
+				cn := calleeName(x.Common())
+				if byteBounders[cn] && !boundsAnAnswer(cn, x.Common().Args) {
+					r.Check(false, rule, fnName(fn), "call of "+cn, r.P.pos(ins.Pos()), "",
+						"code on the upload path calls "+cn+": a file longer than the bound reaches the owning service cut short (or not at all), without an error")
+				}
+			case *ssa.Alloc:
+				t := x.Type().(*types.Pointer).Elem().String()
+				if t == "io.LimitedReader" || t == "io.SectionReader" {
+					r.Check(false, rule, fnName(fn), "a "+t, r.P.pos(ins.Pos()), "",
+						"code on the upload path builds a "+t+": a file longer than the bound reaches the owning service cut short, without an error")
+				}
+			}
+		}
+	}
+	r.OKTrivial(rule, "", "upload path", "-", strconv.Itoa(n)+" function(s) reachable from "+strings.Join(scUpload.roots, ", ")+" call nothing that bounds or cuts a byte stream")
+}
+
+// boundsAnAnswer: the stream handed to the bounding call is the body of a service's HTTP answer
+// (`resp.Body`): a limit on what a service may send back is not a limit on a file.
+func boundsAnAnswer(cn string, args []ssa.Value) bool {
+	idx := 0
+	if cn == "io.CopyN" || cn == "net/http.MaxBytesReader" {
+		idx = 1
+	}
+	if idx >= len(args) {
+		return false
+	}
+	v := args[idx]
+	for i := 0; i < 8 && v != nil; i++ {
+		switch x := v.(type) {
+		case *ssa.MakeInterface:
+			v = x.X
+		case *ssa.ChangeInterface:
+			v = x.X
+		case *ssa.ChangeType:
+			v = x.X
+		case *ssa.TypeAssert:
+			v = x.X
+		case *ssa.UnOp:
+			if fa, ok := x.X.(*ssa.FieldAddr); ok {
+				if f := fieldOf(fa); f != nil && f.Name() == "Body" {
+					return strings.HasSuffix(fa.X.Type().String(), "net/http.Response")
+				}
+			}
+			return false
+		default:
+			return false
+		}
+	}
+	return false
 }
